@@ -2,7 +2,7 @@
    the dense polynomial type used by C06 and C07. *)
 From Coq Require Import ZArith List Reals Lra Lia Bool Arith Psatz.
 From Coquelicot Require Import Coquelicot.
-From SV Require Import Base.Num Base.Outcome Model.Poly Model.Solvers.
+From SV Require Import Base.Num Base.Outcome Model.Poly Model.Solvers Gen.Consts.
 Import ListNotations.
 Local Open Scope R_scope.
 
@@ -102,7 +102,7 @@ End Generic.
 (* the R instance                                                             *)
 (* ------------------------------------------------------------------------- *)
 Lemma gate_R : @gate R RNum = 1 / 10000.
-Proof. unfold gate. cbn [nofdec RNum powerRZ]. simpl. lra. Qed.
+Proof. unfold gate, Gen.Consts.bisection_residual_gate. cbn [fst snd nofdec RNum]. change (powerRZ 10 (-4)) with (/ (10 * (10 * (10 * (10 * 1))))). lra. Qed.
 
 Lemma c100_R : @c100 R RNum = 100.
 Proof. reflexivity. Qed.
